@@ -17,7 +17,9 @@ structure Inv (cfg : Cfg) (w : Wallet) (tip : BlockId) (lo : Nat) : Prop where
   bday       : w.birthdaySet = true
   tipEq      : w.syncedTo = stampOf cfg.C tip
   lo_le      : lo ≤ tip.length
-  window     : tip.length < lo + cfg.W     -- at most W consecutive heights are guaranteed (pruning at height - W)
+  -- at most W consecutive heights are guaranteed (pruning at height - W); the genesis entry is never pruned
+  -- (`PutSyncedTo` deletes height - W only when it is > 0), so from `lo = 0` the range can be `[0, W]`
+  window     : tip.length < lo + cfg.W ∨ (lo = 0 ∧ tip.length ≤ cfg.W)
   remembered : ∀ h, lo ≤ h → h ≤ tip.length → w.hashes h = some (some (ancestorAt tip h))
   correct    : ∀ h x, h ≤ tip.length → w.hashes h = some x → x = some (ancestorAt tip h)
   mined      : MinedOn w tip
